@@ -65,7 +65,12 @@ if spec.get('island'):
     ss.add('Shunt', dict(idx='SRB', bus='RB', b=0.5, g=0.05, Vn=ss.Bus.Vn.v[0]))
     ss.add('PQ', dict(idx='PRB', bus='RB', p0=0.1, q0=0.05, Vn=ss.Bus.Vn.v[0]))
 ss.setup()
-ss.PFlow.run(); ss.TDS.config.no_tqdm = 1; ss.TDS.init()
+ss.PFlow.run()
+if spec.get('reset'):
+    # System.reset() re-assigns every address (a_reset + a second set-up); the matrices used afterwards must be
+    # addressed by the NEW assignment
+    ss.reset(); ss.config.ipadd = spec['ipadd']; ss.PFlow.run()
+ss.TDS.config.no_tqdm = 1; ss.TDS.init()
 tds, dae, models = ss.TDS, ss.dae, ss.exist.pflow_tds
 rng = np.random.default_rng(spec['seed'])
 out = {'points': []}
@@ -180,6 +185,7 @@ def assembled_stream(ctx):
             specs.append({'case': case, 'ipadd': ipadd, 'seed': seed, 'points': ctx.n(2, 4), 'amp': 1e-3, 'toggle': True})
         specs.append({'case': case, 'ipadd': 1, 'seed': seed + 1, 'points': 2, 'amp': 1e-3, 'island': True})
         specs.append({'case': case, 'ipadd': 1, 'seed': seed + 2, 'points': 2, 'amp': 1e-3, 'model_off': True})
+        specs.append({'case': case, 'ipadd': ctx.rng.choice([0, 1]), 'seed': seed + 3, 'points': 2, 'amp': 1e-3, 'reset': True})
     if not ctx.thorough:
         # a case with models that take part in the power flow only (DC network, VSC): their equations stay in the
         # residual during the time-domain simulation and the Jacobian has to follow them there too
@@ -192,10 +198,11 @@ def assembled_stream(ctx):
         key = {k: sp[k] for k in ('case', 'ipadd', 'seed')}
         key['island'] = bool(sp.get('island'))
         key['model_off'] = bool(sp.get('model_off'))
+        key['reset'] = bool(sp.get('reset'))
         if 'error' in r:
             ctx.oracle_fail('assembled-run-raises', 'assembling the Jacobian raised: ' + r['error'][-200:], key)
             continue
-        if not sp.get('island') and not sp.get('model_off'):
+        if not sp.get('island') and not sp.get('model_off') and not sp.get('reset'):
             by_case.setdefault(sp['case'], {})[sp['ipadd']] = r
         for k, pt in enumerate(r['points']):
             ctx.case(json.dumps(dict(key, point=k), sort_keys=True), dict(key, point=k, maxdiff=pt['maxdiff'], nnz=pt['nnz']))
